@@ -7,6 +7,7 @@ pub mod c05;
 pub mod c06;
 pub mod c07;
 pub mod c08;
+pub mod c09;
 pub mod c10;
 pub mod c11;
 pub mod c12;
@@ -47,5 +48,6 @@ pub const REGISTRY: &[Entry] = &[
     Entry { id: "C15", level: "exploration", main: c15::main, replay: c15::replay },
     Entry { id: "C08", level: "exploration", main: c08::main, replay: c08::replay },
     Entry { id: "C05", level: "exploration", main: c05::main, replay: c05::replay },
+    Entry { id: "C09", level: "exploration", main: c09::main, replay: c09::replay },
     Entry { id: "C11", level: "exploration", main: c11::main, replay: c11::replay },
 ];
